@@ -472,6 +472,45 @@ func (g *tgen) nearTransition(z *namedZone) string {
 	}
 }
 
+// pairNear returns a zone-less wall clock and a zoned instant around one and the same offset change
+// of z: the operands whose comparison depends on how gaps and overlaps are resolved.
+func (g *tgen) pairNear(z *namedZone) (string, string) {
+	y := 1900 + g.r.Intn(201)
+	if g.chance(50) {
+		y = 2020 + g.r.Intn(8)
+	}
+	trs := z.inYear(y)
+	if len(trs) == 0 {
+		return g.nearTransition(z), g.nearTransition(z)
+	}
+	tr := trs[g.r.Intn(len(trs))]
+	before := offAt(z.loc, tr.at-1)
+	deltas := []int64{0, -1, 1, -900, 900, -1800, 1800, 1799, -1799, -3599, -3600, -3601, 3599, 3600, 3601, 5400, -5400, 7200, -7200}
+	d1, d2 := deltas[g.r.Intn(len(deltas))], deltas[g.r.Intn(len(deltas))]
+	if g.chance(40) {
+		d2 = d1 // the instant the wall clock may denote
+	}
+	wallOff := []int{before, tr.off}[g.r.Intn(2)]
+	w := time.Unix(tr.at+int64(wallOff)+d1, 0).UTC()
+	a := w.Format("2006-01-02T15:04:05")
+	if g.chance(25) {
+		a += g.frac()
+	}
+	if g.chance(10) {
+		a = w.Format("2006-01-02")
+	}
+	instOff := []int{0, before, tr.off}[g.r.Intn(3)]
+	i := time.Unix(tr.at+d2, 0).In(time.FixedZone("", instOff))
+	b := i.Format("2006-01-02T15:04:05Z07:00")
+	if g.chance(25) {
+		b = i.Format("2006-01-02T15:04:05") + g.frac() + i.Format("Z07:00")
+	}
+	if g.chance(50) {
+		return b, a
+	}
+	return a, b
+}
+
 // src returns a source string and whether it was meant to be valid; validPct
 // is the share of well-formed strings.
 func (g *tgen) src(z *namedZone, validPct int) (string, bool) {
@@ -704,6 +743,8 @@ func genTimeMain(args []string) int {
 			if g.chance(25) {
 				// related operands: equal instants / equal wall clocks are the interesting ties
 				b = g.related(a)
+			} else if z != nil && g.chance(40) {
+				a, b = g.pairNear(z)
 			}
 			c["op"] = "time.compare"
 			c["a"] = a
